@@ -6,9 +6,9 @@ from gen import mibgen
 from props import parse_common as pc
 
 LEVEL = 'proof'
-MODULES = ['Pysmi.Props.C02', 'Pysmi.Props.C02Macro', 'Pysmi.Pins.Lex']
-LAKE_TARGETS = ['Pysmi.Props.C02', 'Pysmi.Props.C02Macro', 'Pysmi.Pins.Lex']
-THEOREMS = [
+MODULES = ['Pysmi.Props.C02', 'Pysmi.Props.C02Macro', 'Pysmi.Pins.Lex', 'Pysmi.Pins.SkelC02']
+LAKE_TARGETS = ['Pysmi.Props.C02', 'Pysmi.Props.C02Macro', 'Pysmi.Pins.Lex', 'Pysmi.Pins.SkelC02']
+THEOREMS = ['Pysmi.Pins.SkelC02.pin_parserParse', 'Pysmi.Pins.SkelC02.pin_parserError', 
     'Pysmi.LR.C02_lr_sound',
     'Pysmi.LR.C02_no_accept_past_lexer_error',
     'Pysmi.Lexer.C02_blank_skipped',
